@@ -288,7 +288,18 @@ func pmtMatches(p *astits.PMTData, c *CallRec) string {
 			x.LenMode = 0
 			wd = append(wd, x.ToAstits())
 		}
-		if core.Dump(g.ElementaryStreamDescriptors) != core.Dump(wd) {
+		// A descriptor configured as opaque bytes must come back with those bytes; whether the
+		// library additionally offers a typed view of it is not the round trip's business.
+		gd := g.ElementaryStreamDescriptors
+		if len(gd) == len(wd) {
+			gd = append([]*astits.Descriptor{}, gd...)
+			for i, w := range wd {
+				if w.Unknown != nil && gd[i] != nil {
+					gd[i] = &astits.Descriptor{Tag: gd[i].Tag, Length: gd[i].Length, Unknown: gd[i].Unknown}
+				}
+			}
+		}
+		if core.Dump(gd) != core.Dump(wd) {
 			return fmt.Sprintf("stream %d descriptors %s, configured %s", k, core.Short(core.Dump(g.ElementaryStreamDescriptors), 300), core.Short(core.Dump(wd), 300))
 		}
 	}
